@@ -1,5 +1,6 @@
 import XjsModel.Proofs.ParserTolPass
 import XjsModel.Proofs.ParserSmartPass
+import XjsModel.Proofs.RaTerm
 /-
   C13 — Parser modes differ only where documented.
 
@@ -11,9 +12,14 @@ import XjsModel.Proofs.ParserSmartPass
         step for step, the tolerant-mode run);
     (c) smart-semicolon mode yields the same tree AND the same errors as the default mode on every token
         list in which no `(` or `[` is the first token of a line (`smart_mutual`: the cut never fires).
-  Decided by the correspondence run and the model-free mode-diff oracle only: (b) what tolerant mode
-  additionally accepts (fused statements, blocks left open at the end) keeps every complete statement;
-  (d) the exact effect of the smart cut on line-initial `(` / `[`.
+    (b) tolerant mode accepts, without error and returning the full tree, every program in which statement
+        terminators are missing in front of a token that cannot continue the expression — on the same line or not
+        (`tolerant_accepts_missing_separators`; from the statement-level round trip);
+    (d) in smart-semicolon mode a `(` or `[` at the start of a line begins a new statement exactly as if a semicolon
+        preceded it: the program without that terminator is parsed to the same tree as with it
+        (`smart_line_initial_open_starts_a_statement`).
+  Decided by the correspondence run and the model-free mode-diff oracle only: blocks left open at the end of the
+  input (tolerant mode); that the default mode joins such a line-initial `(` / `[` to the previous expression.
 -/
 namespace Xjs.C13
 open Xjs
@@ -116,8 +122,39 @@ example : ∃ r, parseProgram {} [dummyTok] = some r ∧ r.errors = [] ∧ (∀ 
   rw [parseProgram, programLoop]
   simp [PS.init, PS.cur, dummyTok]
 
+open Xjs.RA in
+/-- (b) TOLERANT MODE: every statement terminator may be missing as long as the next token cannot continue the
+    expression (e.g. `a = 1 b = 2` on one line): the program is accepted without error and every statement is kept -/
+theorem tolerant_accepts_missing_separators (cfg : PCfg) (hc : BaseCfg cfg) (htol : cfg.tolerant = true)
+    (prog : SSList) (hw : prog.wf = true) (eofTok : Token) (he : eofTok.type = .eof) (hlay : prog.lay true false eofTok = true) :
+    ∃ r, parseProgram cfg (prog.toks ++ [eofTok]) = some r ∧ r.prog = prog.tree ∧ r.errors = [] ∧ r.hasErr = false :=
+  program_round_trip (tol := true) (sm := false) hc (fun _ => htol) (fun h => by cases h) prog hw eofTok he hlay
+
+open Xjs.RA in
+/-- (d) SMART SEMICOLONS: a statement that is not closed by `;` and is followed by a line starting with `(` or `[` (or by
+    anything else admissible) ends there: the program is parsed to the tree it has with the terminator written -/
+theorem smart_line_initial_open_starts_a_statement (cfg : PCfg) (hc : BaseCfg cfg) (hsm : cfg.smart = true)
+    (prog : SSList) (hw : prog.wf = true) (eofTok : Token) (he : eofTok.type = .eof) (hlay : prog.lay false true eofTok = true) :
+    ∃ r, parseProgram cfg (prog.toks ++ [eofTok]) = some r ∧ r.prog = prog.tree ∧ r.errors = [] ∧ r.hasErr = false :=
+  program_round_trip (tol := false) (sm := true) hc (fun h => by cases h) (fun _ => hsm) prog hw eofTok he hlay
+
+/-! Non-vacuity: `a = 1 b = 2` (one line) is admissible in tolerant mode only; `a⏎(b)` in smart mode only -/
+private def tk (ty : TokType) (lit : Bytes) (nl : Bool := false) : Token :=
+  { type := ty, lit := lit, sl := 0, sc := 0, el := 0, ec := 0, nl := nl }
+private def fused : RA.SSList :=
+  .cons (.exprS (.asg (tk .assign [61]) (.atom (tk .ident [97])) (.atom (tk .int [49]))) false)
+    (.cons (.exprS (.asg (tk .assign [61]) (.atom (tk .ident [98])) (.atom (tk .int [50]))) true) .nil)
+example : fused.wf = true ∧ fused.lay true false (tk .eof []) = true ∧ fused.lay false false (tk .eof []) = false := by decide
+/-- `a⏎(function () {})();` : an immediately-invoked function expression on the line after a statement without `;` -/
+private def iife : RA.SSList :=
+  .cons (.exprS (.atom (tk .ident [97])) false)
+    (.cons (.exprS (.call (tk .lparen [40]) (.grp (tk .lparen [40] true) (.func (tk .function [102]) none [] .nil) (tk .rparen [41])) .nil) true) .nil)
+example : iife.wf = true ∧ iife.lay false true (tk .eof []) = true ∧ iife.lay false false (tk .eof []) = false := by decide
+
 end Xjs.C13
 
 #print axioms Xjs.C13.tolerant_agrees_where_strict_accepts
 #print axioms Xjs.C13.smart_agrees_without_line_initial_open
 #print axioms Xjs.C13.premise_is_about_layout
+#print axioms Xjs.C13.tolerant_accepts_missing_separators
+#print axioms Xjs.C13.smart_line_initial_open_starts_a_statement
